@@ -144,4 +144,14 @@ func thoroughExtras(prog *Program, c *Check, repo, verif string) {
 	if applicable > 0 && detected == 0 {
 		c.Brokenf("none of the %d applicable seeded changes of this property is reported any more", applicable)
 	}
+	// mutation sensitivity: up to 4 type-preserving mutants per anchored function, applied in memory, one per function
+	// per load; a mutant counts when a rule of THIS property reports a violation in the mutated function
+	if len(c.anchoredFuncs) > 0 {
+		gen, rep, inv := mutationSensitivity(prog, repo, verif, c.Property, c.anchoredFuncs, known, 4)
+		c.Extra["mutation_sensitivity"] = map[string]int{"mutants_applied": gen, "reported_in_the_mutated_function": rep, "discarded_not_type_correct": inv}
+		fmt.Printf("%s thorough: mutation sensitivity %d/%d mutants of anchored functions reported (%d discarded)\n", c.Property, rep, gen, inv)
+		if gen >= 20 && rep*2 < gen {
+			c.Brokenf("only %d of %d mutants of the anchored functions are reported", rep, gen)
+		}
+	}
 }
